@@ -151,13 +151,27 @@ REGISTRY_PROBE = r'''
 import json, sys
 import sqlalchemy as sa
 from sqlalchemy import func
-names = ["lower", "upper", "substr", "round", "ceil", "floor", "strpos", "ltrim", "rtrim", "char_length", "concat", "now"]
+names = ["lower", "upper", "substr", "round", "ceil", "floor", "strpos", "ltrim", "rtrim", "char_length", "concat", "now", "coalesce", "length", "trim", "replace", "abs", "max", "min", "count", "sum",
+         "instr", "substring", "cast", "extract", "date", "time", "strftime", "like", "random", "current_timestamp", "nullif", "mod"]
 def snap():
     out = {}
     col = sa.column("c", sa.Numeric(10, 4))
+    from sqlalchemy.dialects import sqlite, postgresql, mysql
+    txt = sa.column("s", sa.String)
     for n in names:
-        f = getattr(func, n)(col)
-        out[n] = [type(f).__module__ + "." + type(f).__name__, type(f.type).__name__, str(f.compile(compile_kwargs={"literal_binds": True}))]
+        try:
+            f = getattr(func, n)(col)
+            out[n] = [type(f).__module__ + "." + type(f).__name__, type(f.type).__name__, str(f.compile(compile_kwargs={"literal_binds": True}))]
+        except Exception as e:  # noqa
+            out[n] = ["raises " + type(e).__name__]
+        # the same call, and a call with several arguments, compiled for real dialects (a dialect-specific compilation hook on one of SQLAlchemy's OWN
+        # function classes changes the host's statements on that dialect only)
+        for dname, d in (("sqlite", sqlite.dialect()), ("postgresql", postgresql.dialect()), ("mysql", mysql.dialect())):
+            for tag, call in (("1", lambda: getattr(func, n)(col)), ("3", lambda: getattr(func, n)(txt, "x", txt)), ("2", lambda: getattr(func, n)(txt, 2))):
+                try:
+                    out[n + ":" + dname + ":" + tag] = str(call().compile(dialect=d, compile_kwargs={"literal_binds": True}))
+                except Exception as e:  # noqa
+                    out[n + ":" + dname + ":" + tag] = "raises " + type(e).__name__
     out["_expr_type"] = type((func.round(col, 2) / sa.column("d", sa.Integer)).type).__name__
     return out
 order = sys.argv[1]
